@@ -217,3 +217,72 @@ func VerifC17Inbound(nboxes int) {
 		vrf.Assert("second-answer-honoured", vrfCount(st, "from-second") == 1)
 	}
 }
+
+// failingStore fails AddMessage for one mailbox.
+type failingStore struct {
+	storage.Store
+	failBox string
+}
+
+func (f *failingStore) AddMessage(m storage.Message) (string, error) {
+	if m.Mailbox() == f.failBox {
+		return "", io.ErrShortWrite
+	}
+	return f.Store.AddMessage(m)
+}
+
+// VerifC16DeliverOrder: stored and deleted events of one delivery, seen by one listener registered
+// for both. scn 0: two recipients name the same mailbox (by case and +extension) and the mailbox
+// cap is 1, so the second copy evicts the first: the listener sees stored(1), deleted(1),
+// stored(2) - a message's stored event before its deleted event. scn 1: the store fails for the
+// second recipient's mailbox: the copy that was stored for the first recipient still has its
+// stored event (one event per message that entered a mailbox).
+func VerifC16DeliverOrder(scn int) {
+	hooks := extension.NewHost()
+	var seen []string
+	hooks.Events.AfterMessageStored.AddListener("vrf", func(m event.MessageMetadata) {
+		seen = append(seen, "S"+m.Mailbox+"/"+m.ID)
+	})
+	hooks.Events.AfterMessageDeleted.AddListener("vrf", func(m event.MessageMetadata) {
+		seen = append(seen, "D"+m.Mailbox+"/"+m.ID)
+	})
+	root := &config.Root{MailboxNaming: config.LocalNaming, SMTP: config.SMTP{DefaultStore: true}}
+	ap := &policy.Addressing{Config: root}
+	mcap := 0
+	if scn == 0 {
+		mcap = 1
+	}
+	st, err := mem.New(config.Storage{MailboxMsgCap: mcap}, hooks)
+	if err != nil {
+		return
+	}
+	var store storage.Store = st
+	addrs := []string{"u1@d.org", "U1+tag@d.org"}
+	if scn == 1 {
+		store = &failingStore{Store: st, failBox: "u2"}
+		addrs = []string{"u1@d.org", "u2@d.org"}
+	}
+	mgr := &message.StoreManager{AddrPolicy: ap, Store: store, ExtHost: hooks}
+	vrf.HdrFrom, vrf.HdrTo, vrf.HdrSubject = "", "", ""
+	origin, _ := ap.ParseOrigin("sender@o.org")
+	var rcpts []*policy.Recipient
+	for _, a := range addrs {
+		rc, rerr := ap.NewRecipient(a)
+		if rerr != nil {
+			return
+		}
+		rcpts = append(rcpts, rc)
+	}
+	derr := mgr.Deliver(origin, rcpts, "Received: x\r\n", []byte("hello\n"))
+	vrf.Quiesce()
+	vrf.Cover("delivered")
+	if scn == 0 {
+		vrf.Assert("deliver-noerr", derr == nil)
+		vrf.Assert("stored-before-deleted-in-order", len(seen) == 3 && seen[0] == "Su1/1" && seen[1] == "Du1/1" && seen[2] == "Su1/2")
+	} else {
+		vrf.Assert("deliver-reports-the-failure", derr != nil)
+		ms, _ := st.GetMessages("u1")
+		vrf.Assert("first-copy-stored", len(ms) == 1)
+		vrf.Assert("one-stored-event-per-stored-message", len(seen) == 1 && seen[0] == "Su1/1")
+	}
+}
